@@ -305,7 +305,6 @@ def run(ctx, rep):
 
     must('zero-fat-area', wz('sectors_per_all_fats'), what='zeroing the FAT area (bytes_from_sectors(sectors_per_all_fats))')
     must('format-fat', lambda b, t: (t.get('callee') or '').endswith('table::format_fat'), what='initialising the FAT (format_fat)')
-    must('zero-root-area', wz('root_dir_sectors'), what='zeroing the fixed root directory area')
     # format_fat's geometry arguments come from the BPB
     for b, t in sites('table::format_fat'):
         a = t['args']
@@ -335,6 +334,9 @@ def run(ctx, rep):
                 arm_t = zero_targets(tt) if (src.get('callee') or '').endswith('::ne') else nonzero_targets(tt)
                 if edge_dominates(F, {(bi, x) for x in arm_t}, ab):
                     arm32 = (bi, arm_t)
+    # the fixed root directory area exists on FAT12/16 only (root_dir_sectors() is 0 on FAT32): the FAT32 arm is exempt
+    must('zero-root-area', wz('root_dir_sectors'), extra_cut={(arm32[0], x) for x in arm32[1]} if arm32 else (),
+         what='zeroing the fixed root directory area')
     if arm32 is None:
         rep.oblige('V4', 'fat32-arm', ok=False, nontrivial=True)
         rep.violation('V4', vkey('V4', F.name, 'fat32-arm', ''), F.loc(F.span),
